@@ -965,6 +965,7 @@ class Fetcher:
 
         topic_data = collections.defaultdict(list)
         needs_reset = []
+        sent_strategy = {}
         for tp in tps:
             tp_state = assignment.state_value(tp)
             if not tp_state.awaiting_reset:
@@ -979,6 +980,7 @@ class Fetcher:
                 OffsetResetStrategy.to_str(strategy),
             )
             topic_data[tp.topic].append((tp.partition, strategy))
+            sent_strategy[tp] = strategy
 
         if not topic_data:
             return needs_wakeup
@@ -996,8 +998,13 @@ class Fetcher:
         for tp in needs_reset:
             offset = offsets[tp][0]
             tp_state = assignment.state_value(tp)
-            # There could have been some `seek` call while fetching offset
-            if tp_state.awaiting_reset:
+            # There could have been some `seek` call while fetching offset, or a
+            # `seek_to_*` call asking for another strategy: then this offset is not
+            # the one awaited, the next iteration looks up the right one
+            if (
+                tp_state.awaiting_reset
+                and tp_state.reset_strategy == sent_strategy[tp]
+            ):
                 tp_state.reset_to(offset)
         return needs_wakeup
 
